@@ -56,7 +56,12 @@ def gen(rng, sid, a, b, nops, members):
         kb_ = rng.choice(keysB)
         ops.append({"op": "get", "c": rng.choice(["emb@owner", "cc"]), "d": B, "k": kb_})
         ops.append({"op": "dump", "d": B, "k": kb_})
+    # a pipeline on A, executed and discarded, before A is destroyed and a pipeline on B afterwards: the client's pooled
+    # command buffers must not carry A's commands into the later pipeline
+    ops.append({"op": "put", "c": "pipe", "d": A, "k": keysA[1], "v": dmaplib.hx("piped")})
     ops.append({"op": "destroy", "c": "cc", "d": A})
+    ops.append({"op": "get", "c": "pipe", "d": B, "k": keysB[0]})
+    ops.append({"op": "get", "c": "pipe", "d": B, "k": keysB[1]})
     for k in keysA:
         ops.append({"op": "get", "c": "emb@other", "d": A, "k": k})
         ops.append({"op": "dump", "d": A, "k": k})
